@@ -61,6 +61,8 @@ def build(e):
         if k == "cond2mul":
             a, b = jax.lax.cond(ev(e[1], X) > q(e[2]), lambda Y: (ev(e[3], Y), ev(e[4], Y)), lambda Y: (ev(e[5], Y), ev(e[6], Y)), X)
             return a * b
+        if k == "condc":
+            return jax.lax.cond(ev(e[1], X) > q(e[2]), lambda Y: ev(e[3], Y), lambda Y: q(e[4]), X)
         if k == "switch3":
             i = jnp.clip(ev(e[1], X).astype(jnp.int32), 0, 2)
             return jax.lax.switch(i, [lambda Y: ev(e[2], Y), lambda Y: ev(e[3], Y), lambda Y: ev(e[4], Y)], X)
